@@ -66,8 +66,8 @@ def harnessCfg (max : Nat) : Cfg :=
     hook := some harnessHook
     routes := [(.post, str "/echo"), (.post, str "/noread"), (.post, str "/read/:k"), (.post, str "/early"),
                (.post, str "/swallow"), (.get, str "/close"), (.get, str "/err"), (.get, str "/bigr/:n"),
-               (.get, str "/p/:a/:b")]
-    handler := fun i => [hEcho, hNoread, hReadK, hEarly, hSwallow, hClose, hErr, hBigr, hP].getD i hFallback
+               (.get, str "/p/:a/:b"), (.get, str "/errint")]
+    handler := fun i => [hEcho, hNoread, hReadK, hEarly, hSwallow, hClose, hErr, hBigr, hP, hErr].getD i hFallback
     fallback := hFallback }
 
 def showResp (r : Resp) : String := s!"R{r.status}:{if r.close then 1 else 0}:{hex r.body}"
